@@ -20,6 +20,7 @@ REGISTRY = {
     "C03": ("c03", ["Esp.Props.C03"]),
     "C04": ("c04", ["Esp.Props.C04"]),
     "C10": ("c10", ["Esp.Props.C10"]),
+    "C11": ("c11", ["Esp.Props.C11"]),
     "C12": ("c12", ["Esp.Props.C12"]),
     "C13": ("c13", ["Esp.Props.C13"]),
     "C14": ("c14", ["Esp.Props.C14Tables", "Esp.Props.C14"]),
